@@ -112,8 +112,12 @@ def run_patch(sub, has_fin, pa, ps, pst, f0, f1, f2, foreign_at=None, foreign_ki
             hooks['fired'] = True
             if foreign_kind == 0:
                 srv.write(lambda o: o['metadata'].setdefault('finalizers', []).append('z/fin'))
-            else:
+            elif foreign_kind == 1:
                 srv.write(lambda o: o['spec'].update(x=2))
+            elif foreign_kind == 2:
+                srv.write(lambda o: o['metadata']['finalizers'].remove('a/fin'))        # its owner releases the object
+            else:
+                srv.write(lambda o: o['metadata']['finalizers'].insert(0, 'y/fin'))    # list indexes shift
         if gone_at is not None and idx >= gone_at:
             srv.obj = None
     server.pre_request = hook
@@ -189,11 +193,11 @@ def h_plan(sub: bool, has_fin: bool, pa: int, ps: int, pst: int, f0: bool, f1: b
 
 def h_interference(sub: bool, has_fin: bool, pa: int, pst: int, f0: bool, f1: bool, f2: bool, at: int, kind: int, gone: bool) -> bool:
     """
-    pre: 0 <= pa <= 1 and 0 <= pst <= 1 and 0 <= at <= 3 and 0 <= kind <= 1
+    pre: 0 <= pa <= 1 and 0 <= pst <= 1 and 0 <= at <= 3 and 0 <= kind <= 3
     post: _ == True
     """
     vkopf.begin_path()
-    at = vkopf.pin('at', at)
+    at, kind = vkopf.pin('at', at), vkopf.pin('kind', kind)
     raw, server, patch_dict, fns, res1, n1, res2, fired = run_patch(
         sub, has_fin, pa, 0, pst, f0, f1, f2, foreign_at=None if gone else at, foreign_kind=kind, gone_at=at if gone else None)
     ok = True
@@ -213,7 +217,15 @@ def h_interference(sub: bool, has_fin: bool, pa: int, pst: int, f0: bool, f1: bo
         ok = False
     if fired and kind == 1 and final['spec'].get('x') != 2:
         ok = False
-    if 'a/fin' not in final['metadata'].get('finalizers', []):
+    # ... and nothing of the foreign state is clobbered: the foreign finalizers are exactly what the foreign writers left
+    foreign_expected = ['a/fin']
+    if fired and kind == 0:
+        foreign_expected = ['a/fin', 'z/fin']
+    elif fired and kind == 2:
+        foreign_expected = []
+    elif fired and kind == 3:
+        foreign_expected = ['y/fin', 'a/fin']
+    if [f for f in final['metadata'].get('finalizers', []) if f != FIN] != foreign_expected:
         ok = False
     if conflict:
         vkopf.witness('conflict')
@@ -275,6 +287,6 @@ def h_identity(recreate: bool, slow: bool) -> bool:
 
 def obligations():
     obs = split(Ob('h_plan', {}, timeout=1500, twins=['json_patch', 'status_subresource']), pa=[0, 1, 2], pst=[0, 1, 2])
-    obs += split(Ob('h_interference', {}, timeout=1500, twins=['conflict', 'gone']), at=[0, 1, 2, 3])
+    obs += split(Ob('h_interference', {}, timeout=1500, twins=['conflict', 'gone']), at=[0, 1, 2, 3], kind=[0, 1, 2, 3])
     obs.append(Ob('h_identity', {}, expect='counterexample', finding='F6', timeout=300))
     return obs
